@@ -46,6 +46,11 @@ func toNotification(host *Host) Notification {
 }
 
 func (h *Session) sendNotification(notification Notification) {
+	h.mutex.RLock()
+	defer h.mutex.RUnlock()
+	if h.closed { // channel is closed
+		return
+	}
 	if len(h.C) < cap(h.C) {
 		h.C <- notification
 		return
